@@ -50,3 +50,12 @@ def run(project, chk):
               f"the default schedule's largest tolerance ({dmax}) does not exceed the strict-mode cap {C.STRICT_CAP}", how="maximum of the list literal",
               message=f"the default schedule reaches {dmax} > {C.STRICT_CAP}: strict mode can move a colour further than 5.0")
     chk.extra["default_schedule_max"] = dmax
+
+
+_run_own = run
+
+
+def run(project, chk):      # noqa: F811  (borrowed rules first: an established violation outlives a later inconclusive rule)
+    from checks._borrow import borrow
+    borrow(project, chk, "C11", {"L1", "L2", "L3", "L4"}, "D7", "the yardstick of every tolerance, calculate_delta_e_2000, is CIEDE2000 (C11's closed form): a wrong term makes 'within dE 5.0' mean something else")
+    _run_own(project, chk)
